@@ -174,7 +174,7 @@ func cmdCheck(args []string) int {
 		}
 		for _, key := range pi.cf.Order {
 			c := pi.cf.Contracts[key]
-			if !hasProp(c.Props, *prop) {
+			if !hasProp(c.Props, *prop) || c.Inline {
 				continue
 			}
 			if *only != "" && !strings.Contains(key, *only) {
@@ -375,6 +375,9 @@ func cmdCheck(args []string) int {
 		fmt.Println(v)
 	}
 	if len(violations) > 0 {
+		for _, m := range undecided {
+			fmt.Printf("note: %s\n", m)
+		}
 		return 1
 	}
 	if len(undecided) > 0 {
